@@ -207,16 +207,13 @@ Fixpoint write_cells (off : nat) (xs : list value) (cells : list value) : list v
 Definition arr_write (a off : nat) (xs : list value) (st : state) : state :=
   set_arrays (list_set a (write_cells off xs (arr_of st a)) (arrays st)) st.
 
-(* pyList.Operator(Add): slices.Clip(append(l, l2...)) - append writes into the spare capacity of l's
-   backing array when the result fits, Clip then only trims the capacity of the RESULT *)
+(* pyList.Operator(Add): l.concat(l2) = append(append(make(pyList, 0, len(l)+len(l2)), l...), l2...) - always a new
+   backing array whose capacity is its length (since /repo 7aeabfa; before, slices.Clip(append(l, l2...)) wrote into
+   the spare capacity of l's array and returned l itself for an empty l2) *)
 Definition list_add (d : dialect) (l : slice) (items2 : list value) (st : state) : slice * state :=
   match d with
   | Py => alloc_list (list_items Py st l ++ items2) 0 st
-  | Asp =>
-      let n := (s_len l + length items2)%nat in
-      if Nat.leb n (s_cap l) then
-        (Slice (s_arr l) (s_off l) n n, arr_write (s_arr l) (s_off l + s_len l) items2 st)
-      else alloc_list (list_items Asp st l ++ items2) n st
+  | Asp => alloc_list (list_items Asp st l ++ items2) (s_len l + length items2) st
   end.
 
 (* ---- dicts ---- *)
